@@ -679,6 +679,20 @@ def _run(ctx, restore):
             box["err"] = ex
     th = threading.Thread(target=build)
     th.start()
+    # thorough tier: a second build of the same driver under ASan + UBSan + _GLIBCXX_ASSERTIONS (about 5 min,
+    # in the background) on which the quick plan is run at the end: the object-sequence and partial-chain call
+    # forms are executed under a memory-safety observer by no other check
+    box2 = {}
+
+    def build_san():
+        try:
+            box2["exe"] = ctx.cpp("harness/c13.cpp", name="c13_san", sanitize=True, timeout=1500)
+        except Exception as ex:
+            box2["err"] = ex
+    th2 = None
+    if ctx.tier != "quick":
+        th2 = threading.Thread(target=build_san)
+        th2.start()
 
     tstatus = regenerate(ctx, restore)
     coq = ctx.coq()
@@ -737,9 +751,12 @@ def _run(ctx, restore):
             if m in needs and d.get("declared", "-").replace("-", "") != needs[m]:
                 ctx.mismatch({"method": m}, "translated traits of %s say %s, the library object says %s"
                              % (m, d.get("declared"), needs[m] or "-"))
-        if set(summ["methods"]) != set(METHODS):
-            ctx.mismatch({"methods": sorted(set(summ["methods"]) ^ set(METHODS))},
-                         "method table of defines/methods.hpp and the harness's method list differ")
+        if set(METHODS) - set(summ["methods"]):
+            ctx.mismatch({"methods": sorted(set(METHODS) - set(summ["methods"]))},
+                         "methods the harness runs are missing from the translated method table")
+        if set(summ["methods"]) - set(METHODS):
+            ctx.note("methods in defines/methods.hpp that harness/c13.cpp does not know (covered by the theorems only): %s"
+                     % sorted(set(summ["methods"]) - set(METHODS)))
         for o, e in summ["routes_fail"][:5]:
             ctx.note("regenerated chain table: routing decider fails for order %s entry %s" % (o, e))
         for m, o, e in summ["suff_fail"][:8]:
@@ -754,6 +771,16 @@ def _run(ctx, restore):
     if ctx.is_unshown() and not ctx.has_violation():
         ctx.note("search phase: proof / translator / correspondence no longer checks; running the thorough plan")
         n += evaluate(ctx, exe, mexe, needs, plan(ctx, "thorough", rng, extra_search=True), "thorough", rng, stats, samples)
+    san = "not run (quick tier)"
+    if th2 is not None:
+        th2.join()
+        if "exe" in box2:
+            before = len(ctx._violations)
+            n += evaluate(ctx, box2["exe"], mexe, needs, plan(ctx, "quick", rng), "quick", rng, stats, samples)
+            san = "quick plan re-run under ASan+UBSan+_GLIBCXX_ASSERTIONS: %d new violation(s)" % (len(ctx._violations) - before)
+        else:
+            san = "sanitizer build failed (not a verdict): %s" % str(box2.get("err"))[-300:]
+            ctx.note(san)
     if ctx.has_violation():
         shrink_violations(ctx, exe, needs)
     distinct = len(stats.pop("distinct"))
@@ -784,6 +811,7 @@ def _run(ctx, restore):
         extra={"translators": tstatus, "translator_self_tests_ok": self_ok,
                "over_declaration_reported_not_judged": over,
                "needs_flags_read_from_library": needs,
+               "sanitizer_pass": san,
                "is_dummy_read_from_library": traits,
                "model_deciders_on_regenerated_tables": (summ or {}).get("flags", {}),
                "traces_validated_against_impl": n})
